@@ -719,8 +719,13 @@ func getDirectTextContent(n *html.Node) string {
 		} else if c.Type == html.ElementNode {
 			// Include inline elements, skip block elements
 			switch c.Data {
-			case "ul", "ol", "div", "p", "table", "blockquote":
-				// Skip these - they're block elements
+			case "ul", "ol":
+				// Nested lists become items of their own
+			case "div", "p", "table", "blockquote":
+				// Block content of the item: keep its text, set apart by blanks
+				result.WriteString(" ")
+				result.WriteString(getTextContent(c))
+				result.WriteString(" ")
 			default:
 				result.WriteString(getTextContent(c))
 			}
